@@ -740,12 +740,15 @@ struct PartB {
             CBlock blk;
             bool same = n.chainman().m_blockman.ReadBlock(blk, *r.idx) && SerBlock(blk) == r.orig;
             if (!same) {
+                // where the changed byte sits (stable key): "coinbase" = the coinbase's witness stack (covered only by
+                // the witness commitment), "coinbase-body" = any other coinbase byte, "txs" = the other transactions
                 const char* sub = "txs";
-                // classify where in the block the changed byte sits (for a stable key)
                 unsigned rel = f.off - r.start;
                 const CBlock& ob = L.blocks.at(r.hash).block;
                 unsigned cb_size = GetSerializeSize(TX_WITH_WITNESS(*ob.vtx[0]));
-                if (rel >= 89 && rel < 89 + cb_size) sub = "coinbase";
+                unsigned ws = GetSerializeSize(ob.vtx[0]->vin[0].scriptWitness.stack);
+                if (rel >= 89 && rel < 89 + cb_size) sub = (rel >= 89 + cb_size - 4 - ws && rel < 89 + cb_size - 4) ? "coinbase" : "coinbase-body";
+                if (f.kind != 'f') sub = "multi-byte";
                 out.violation(strprintf("B-corrupted-block-connected:%s:%s", r.name, sub), "a block whose stored transaction bytes were corrupted became part of the active chain: " + fs_ + " (tip height " + std::to_string(h) + ")", "partB xor=" + std::to_string(use_xor) + "\nfault: " + fs_ + "\nsequence: InvalidateBlock(X1) with intact files, corrupt the file, ReconsiderBlock(X1)");
             }
             out.count("B_connect_connected_same", same);
@@ -812,22 +815,8 @@ int main(int argc, char** argv)
 
         printf("t=%.1f connect done\n", vx::elapsed());
         // ---- Part A (depth by depth so that a deadline leaves a completed bound)
-        if (getenv("C17_PROFILE")) {
-            PartA a(node, scratch / "prof", use_xor);
-            fp::Out o; o.fd = 1;
-            std::vector<std::vector<int>> hs = {{W_TINY}, {W_MID, U_BIG}, {W_OVER, U_HUGE, W_FIT}, {W_MID, W_MID, W_MID, W_SPILL, U_EMPTY, PRUNE}};
-            for (auto& h : hs) {
-                for (int v = 0; v < 2; v++) {
-                    timespec t0, t1; clock_gettime(CLOCK_PROCESS_CPUTIME_ID, &t0);
-                    for (int i = 0; i < 50; i++) a.Execute(h, o, v);
-                    clock_gettime(CLOCK_PROCESS_CPUTIME_ID, &t1);
-                    printf("history [%s] verify=%d: %.3f ms cpu each\n", HistStr(h).c_str(), v, ((t1.tv_sec - t0.tv_sec) + (t1.tv_nsec - t0.tv_nsec) * 1e-9) * 1000 / 50);
-                }
-            }
-            return 0;
-        }
         if (getenv("C17_SKIP_A")) continue;
-        int maxd = big ? 5 : 3;
+        int maxd = big ? 5 : 4;
         if (const char* e = getenv("C17_DEPTH")) maxd = atoi(e);
         int done = 0;
         {
